@@ -123,3 +123,38 @@ def full_path_probe(v, prop, tier, seed, cases=None):
                 v.violation("inflight-leak:webseed", vi["what"], c)
     v.cov["webseed_full_path"] = {"cases": len(cases), "rule": "running torrents fetching from a local web seed (3 layouts incl. 2 MiB pieces x 3 server behaviours): inFlight is zero once every fetch has ended"}
     return len(cases)
+
+
+def kill_probe(v, prop, tier, seed, cases=None):
+    """For C17: a torrent deleted while a web-seed fetch is outstanding (GetRight and Hoffman seeds, the server stalling before
+    the headers or in the middle of the body): the fetch ends with the torrent."""
+    if cases is None:
+        reps = 1 if tier == "quick" else 6
+        cases = [{"kind": "killfetch", "layout": ly, "server": sv, "binding": "webseed"} for _ in range(reps)
+                 for ly in ("getright", "hoffman") for sv in ("stall-before-headers", "stall-mid-body")]
+        for i, c in enumerate(cases):
+            c["id"] = 7000 + i
+    vh = vlib.build_harness()
+    wd = vlib.scratch("wsk-")
+    sf, rf = os.path.join(wd, "cases.ndjson"), os.path.join(wd, "res.ndjson")
+    with open(sf, "w") as f:
+        for c in cases:
+            f.write(json.dumps(c, separators=(",", ":")) + "\n")
+    out, err = vlib.run_harness(vh, ["webseed", "-in", sf, "-out", rf, "-parallel", "4", "-timeout", "120"], timeout=3600)
+    log(out.strip())
+    for line in open(rf):
+        res = json.loads(line)
+        c = cases[res["index"]]
+        if res.get("crash") or res.get("hang"):
+            st = res.get("stderr", "")
+            first = [x for x in st.splitlines() if x.startswith(("panic", "fatal"))][:1]
+            v.violation("crash:killfetch", "the process %s while a torrent with an outstanding web-seed fetch was deleted: %s" % ("hung" if res.get("hang") else "crashed", first), c)
+            continue
+        o = res["out"]
+        if o.get("note") and not o.get("violations"):
+            raise Internal("kill probe case %s: %s" % (c["id"], o["note"][:600]))
+        for vi in o.get("violations") or []:
+            if vi["prop"] == prop:
+                v.violation(vi["key"], vi["what"], c)
+    v.cov["webseed_kill_probe"] = {"cases": len(cases), "rule": "running torrents deleted while a fetch from a stalling local web seed (GetRight / Hoffman; before headers / mid-body) is outstanding"}
+    return len(cases)
